@@ -297,18 +297,19 @@ def induction(fn, lp):
     swap = {"<": ">", ">": "<", "<=": ">=", ">=": "<=", "!=": "!=", "==": "=="}
     groups = []          # candidates that stem from the same comparison: the ones that never step are dropped below
     for x in conj:
-        if x.kind == "BinaryOperator" and x.op in swap:
-            l, r = x.children
+        rel = fact_relation(x, True)        # folds negations: `!(len < off + n)` is `off + n <= len`
+        if rel is not None:
+            l, xop, r = rel
             vl, vr = _var_of(l), _var_of(r)
             grp = []
             if vl is not None and vl not in out:
-                out[vl] = {"bound": (x.op, r)}
+                out[vl] = {"bound": (xop, r)}
                 grp.append(vl)
             if vr is not None and vr not in out:
-                out[vr] = {"bound": (swap[x.op], l)}
+                out[vr] = {"bound": (swap[xop], l)}
                 grp.append(vr)
             # `v + e OP bound` (e.g. off + item_size <= length): v is the induction variable, e an offset
-            for side, other, op_ in ((l, r, x.op), (r, l, swap[x.op])):
+            for side, other, op_ in ((l, r, xop), (r, l, swap[xop])):
                 ss = side.strip()
                 if ss.kind == "BinaryOperator" and ss.op == "+":
                     for a_, b_ in ((ss.children[0], ss.children[1]), (ss.children[1], ss.children[0])):
@@ -460,3 +461,28 @@ def value_states(fn, domains, observe, other=-99999):
         return [st] if v == casev else []
 
     run(fn, init, transfer, refine, limit=400000, refine_switch=refine_switch)
+
+
+def reaching_defs(fn, did, at_id):
+    """Value nodes of the definitions (initialiser or plain assignment) of local `did` that reach element `at_id`
+    (None in the set = reached without a definition, or through a compound update)."""
+    out = set()
+
+    def transfer(n, s):
+        if n.id == at_id:
+            out.add(s)
+        if n.kind == "DeclStmt":
+            for d in n.get("decls", []):
+                if d["d"] == did:
+                    s = d.get("init")
+        elif n.kind == "BinaryOperator" and n.op == "=":
+            v = _var_of(n.children[0])
+            if v == did:
+                s = n.children[1].id
+        elif n.kind in ("CompoundAssignOperator", "UnaryOperator") and n.get("op") in ("+=", "-=", "*=", "/=", "++", "--", "|=", "&=", "<<=", ">>="):
+            if _var_of(n.children[0]) == did:
+                s = None
+        return [s]
+    run(fn, [None], transfer, None)
+    return {(fn.node(i) if i is not None else None) for i in out}
+
